@@ -35,6 +35,12 @@ def matrix_cases(tier):
     )
 
 
+def large_matrix_cases(tier):
+    """16-45 states (sparse / dense / ragged action sets; inferred and explicit state lists)"""
+    from vpm.gen.mdp import large_mdp_specs
+    return st.one_of(large_mdp_specs("discounted"), large_mdp_specs("negative"), large_mdp_specs("dproper"))
+
+
 def _vi(mdp):
     from msdm.algorithms.valueiteration import ValueIteration
     return ValueIteration(max_residual=1e-8).plan_on(mdp)
@@ -246,6 +252,10 @@ PROPS = [
          doc="state/action lists, arrays and tables vs the spec, cell by cell"),
     Prop("roundtrip", matrix_cases, prop_roundtrip, quick=600, thorough=36000,
          doc="from_matrices / QuickTabularMDP / QuickMDP round trips incl. planning results"),
+    Prop("views_large", large_matrix_cases, prop_views, quick=100, thorough=6000,
+         doc="the array / table views on MDPs with 16-45 states"),
+    Prop("roundtrip_large", large_matrix_cases, prop_roundtrip, quick=40, thorough=2400,
+         doc="the round trips on MDPs with 16-45 states"),
     Prop("reach", lambda tier: reach_cases(tier), prop_reach, quick=2500, thorough=150000,
          doc="reachable_states (with max_states) and inferred state_list vs closure"),
 ]
